@@ -41,7 +41,11 @@ ASSUMPTIONS = [
 BUDGET_S = {"quick": 300, "thorough": 3000}
 
 TREES = rooted_trees(5)
-TOLS = {"default": (1e-8, 1e-5), "tight": (1e-10, 1e-8), "loose": (1e-4, 1e-3)}
+# "rel": a purely relative request (atol far below rtol |y| along the whole trajectory): enumerated for the
+# contractive linear families, whose solutions decay by orders of magnitude over the long grids
+TOLS = {"default": (1e-8, 1e-5), "tight": (1e-10, 1e-8), "loose": (1e-4, 1e-3), "rel": (1e-14, 1e-6)}
+REL_FAMILIES = ("decay", "bdecay", "lin2", "lin3")
+REL_GRIDS = ("u9", "long", "ragged")
 
 
 # ====================================================================== grids
@@ -100,6 +104,11 @@ class Family:
             return torch.cat([v.reshape(-1) for v in y])
         return y.reshape(-1)
 
+    def mu_raw(self, sgn, tlo, thi):
+        """signed upper bound of the logarithmic 2-norm of the Jacobian in the direction of integration (negative
+        for contractive dynamics); default: the clipped bound"""
+        return self.mu(sgn, tlo, thi)
+
 
 class Decay(Family):
     name = "decay"
@@ -115,6 +124,9 @@ class Decay(Family):
 
     def mu(self, sgn, tlo, thi):
         return max(0.0, -sgn * 1.3 * self.fr)
+
+    def mu_raw(self, sgn, tlo, thi):
+        return -sgn * 1.3 * self.fr
 
     def lip(self, tmax, ymax):
         return 1.3 * self.fr
@@ -153,6 +165,9 @@ class Lin(Family):
 
     def mu(self, sgn, tlo, thi):
         return max(0.0, self._mu_f if sgn > 0 else self._mu_b)
+
+    def mu_raw(self, sgn, tlo, thi):
+        return self._mu_f if sgn > 0 else self._mu_b
 
     def lip(self, tmax, ymax):
         return self._L
@@ -263,6 +278,9 @@ class BDecay(Family):
     def mu(self, sgn, tlo, thi):
         return max(0.0, float((-sgn * self.a64).max()))
 
+    def mu_raw(self, sgn, tlo, thi):
+        return float((-sgn * self.a64).max())
+
     def lip(self, tmax, ymax):
         return float(self.a64.max())
 
@@ -332,6 +350,9 @@ def cases(tier, seed):
                                 if d == "float32" and tl == "tight":
                                     continue
                                 out.append(_pl({"kind": "lattice", "method": m, "family": f, "grid": g, "tol": tl,
+                                                "dtype": d, "plane": pl}, seed))
+                            if d == "float64" and f in REL_FAMILIES and g in REL_GRIDS:
+                                out.append(_pl({"kind": "lattice", "method": m, "family": f, "grid": g, "tol": "rel",
                                                 "dtype": d, "plane": pl}, seed))
     return out
 
@@ -874,12 +895,52 @@ def run_lattice(cfg):
                                                        "local_error_over_tol": rnd(le / tolscale, 3)}
                         break
                 start = spy.log[a["lo"] + s - 1]
+        # ---- every attempted step starts from f(start of the step): the second stage state of an explicit
+        # Runge-Kutta step is y_s + (t_2 - t_s) f(t_s, y_s) (row-sum condition c_2 = a_21), whatever the tableau.
+        # A stale first stage (e.g. the derivative at a rejected trial point carried into the retry) shows here.
+        # ---- and the per-step error budget: E_{k+1} <= exp(mu_k h_k) E_k + 10 (atol + rtol max(|y_k|, |y_{k+1}|))
+        # with the signed logarithmic norm mu_k (errors committed while |y| was large decay with the dynamics)
+        refined = None
+        if att is not None and att and att[0]["pre"] == 1:
+            start = spy.log[0]
+            Eacc = 0.0
+            refined = {0: 0.0}
+            seg_r = 0
+            U = [sgn * x for x in pts]
+            for a in att:
+                ts_, ys_ = start
+                ysf = fam.flat(ys_)
+                if len(spy.log) > a["lo"]:
+                    t2, y2 = spy.log[a["lo"]]
+                    k1 = fam.flat(fam.rhs(ts_, ys_))
+                    exp2 = ysf + (t2 - ts_) * k1
+                    d2 = float((fam.flat(y2) - exp2).abs().max())
+                    tol2 = 64.0 * eps * max(1.0, float(ysf.abs().max()), abs(t2 - ts_) * float(k1.abs().max()))
+                    if not (d2 <= tol2):
+                        viol.append(V("second-stage-state-is-not-y+c2*h*f(step start)",
+                                      {"attempt_first_call": a["lo"], "t_start": ts_, "t_stage": t2, "max_abs_diff": d2,
+                                       "tol": tol2, "after_a_rejected_attempt": bool(a["lo"] > 1 and not att[max(0, att.index(a) - 1)]["acc"])}))
+                        refined = None
+                        break
+                if not a["acc"]:
+                    continue
+                end = spy.log[a["lo"] + s - 1]
+                h_u = a["u1"] - a["u0"]
+                mk_ = fam.mu_raw(sgn, min(ts_, end[0]), max(ts_, end[0]))
+                Eacc = Eacc * math.exp(min(mk_ * h_u, 700.0)) + 10.0 * (atol + rtol * max(
+                    float(ysf.double().norm()), float(fam.flat(end[1]).double().norm())))
+                if seg_r <= n - 2 and abs(a["u1"] - U[seg_r + 1]) <= slack:
+                    seg_r += 1
+                    refined[seg_r] = Eacc
+                start = end
         worst = 0.0
         for i in range(1, n):
             if blind_u is not None and sgn * pts[i] >= blind_u - slack:
                 break
             growth = math.exp(min(mu * abs(pts[i] - pts[0]), 700.0))
             bound = 10.0 * tolscale * max(1, steps_at[i]) * growth + 100.0 * eps * calls_at[i] * ymax2 * growth
+            if refined is not None and i in refined:
+                bound = min(bound, refined[i] + 100.0 * eps * calls_at[i] * ymax2 * growth)
             e = float((Y[i] - exact[i]).norm())
             if not (e <= bound):
                 viol.append(V("global-error-above-tolerance-bound",
